@@ -587,22 +587,36 @@ def confirm_2d(m, item, mdl, st, name, res):
 _CAN_SAVED = []
 
 
+def _swap_code(old, new):
+    if getattr(old, '__code__', None) is not None and getattr(new, '__code__', None) is not None \
+            and old.__code__.co_code != new.__code__.co_code or (getattr(old, '__code__', None) is not None and getattr(new, '__code__', None) is not None
+                                                                  and old.__code__.co_consts != new.__code__.co_consts):
+        _CAN_SAVED.append((old, old.__code__))
+        old.__code__ = new.__code__
+
+
 def apply_canary(m, canary):
+    """swap the code objects of the functions/methods that differ in a source mutant into the live module
+    (so that every importer sees the mutant); undone by undo_canary"""
     name, modkey, edits = canary
     mod = m[modkey]
     mut = H.mutant_module(mod, edits)
-    for k, v in vars(mut).items():
-        if callable(v) and getattr(v, '__module__', None) == mut.__name__ or k in ('empty',):
-            pass
-    # swap function objects of the mutated module into the real module namespace (and dependants importing by name)
     for k, v in list(vars(mut).items()):
         if k.startswith('__'):
             continue
         old = getattr(mod, k, None)
-        if callable(v) and callable(old) and getattr(old, '__code__', None) is not None and getattr(v, '__code__', None) is not None \
-                and old.__code__.co_code != v.__code__.co_code:
-            _CAN_SAVED.append((old, old.__code__))
-            old.__code__ = v.__code__
+        if isinstance(v, type) and isinstance(old, type):
+            for ak, av in vars(v).items():
+                ao = vars(old).get(ak)
+                if isinstance(av, (staticmethod, classmethod)) and isinstance(ao, (staticmethod, classmethod)):
+                    _swap_code(ao.__func__, av.__func__)
+                elif isinstance(av, property) and isinstance(ao, property):
+                    if av.fget and ao.fget:
+                        _swap_code(ao.fget, av.fget)
+                elif callable(av) and callable(ao):
+                    _swap_code(ao, av)
+        elif callable(v) and callable(old) and getattr(v, '__module__', None) == mut.__name__:
+            _swap_code(old, v)
 
 
 def undo_canary(m):
